@@ -133,6 +133,41 @@ def well_typed(V, heap, term, tk, depth=0):
     return out
 
 
+def heap_typing_fact(V, heap, key, const):
+    """type safety of a whole heap component: every pointer / slice / map reference stored in it refers to an object
+    allocated in the state `heap` (allocation counters only grow, so this holds of every reachable Go heap)"""
+    w = V.world
+    I_ = z3.IntSort()
+    r = z3.Const('ht_r', I_)
+    i = z3.Const('ht_i', I_)
+    try:
+        if key[0] == 'f':
+            ty = w.field_index(key[1], key[2])[1]['type']
+            term = const[r]
+            pat = const[r]
+            vs = [r]
+        elif key[0] == 'cell':
+            ty = key[1]
+            term = const[r]
+            pat = const[r]
+            vs = [r]
+        elif key[0] == 'el':
+            ty = key[1]
+            term = const[r][i]
+            pat = const[r][i]
+            vs = [r, i]
+        else:
+            return None
+        if w.prog.kind(ty) not in ('ptr', 'slice', 'map', 'chan'):
+            return None
+        facts = well_typed(V, heap, term, ty)
+    except (OutOfSubset, KeyError):
+        return None
+    if not facts:
+        return None
+    return z3.ForAll(vs, z3.And(*facts), patterns=[pat])
+
+
 class LoopState:
     pass
 
@@ -330,8 +365,13 @@ class Exec:
                         for (lab, ast, txt) in self.contract['returns']:
                             try:
                                 self.oblige('return', evR.boolean(ast), ins_.get('pos', ''), label=lab or '0', text=txt)
+                                V.return_clause_sites = getattr(V, 'return_clause_sites', {})
+                                V.return_clause_sites[lab] = V.return_clause_sites.get(lab, 0) + 1
                             except SpecError as e:
-                                raise OutOfSubset('return clause in %s: %s' % (self.fnkey, e))
+                                # the clause names local variables that do not exist on this return path: it does
+                                # not apply here (it must apply to at least one return, checked at the end)
+                                if 'unknown identifier' not in str(e):
+                                    raise OutOfSubset('return clause in %s: %s' % (self.fnkey, e))
                     res = [self.term(o) if not isinstance(self.val(o), FuncVal) else z3.IntVal(0) for o in ins_['results']]
                     self.returns.append((self.reach, res, self.heap.copy()))
                     terminated = True
@@ -604,6 +644,10 @@ class Exec:
             newheap.set(key, nv)
         # frame for objects allocated at loop entry is NOT automatic: invariants must state it
         self.heap = newheap
+        for key in sorted(mod, key=str):
+            f_ = heap_typing_fact(V, newheap, key, newheap.get(key))
+            if f_ is not None:
+                self.hyp(f_)
         for ph in phis:
             ev_ = entry_vals[ph['name']]
             if isinstance(ev_, (LValue, FuncVal)):
